@@ -586,6 +586,20 @@ def run(ctx):
             lits.append("KI2B %s %s %s" % (C.z_lit(n), C.z_lit(k), optbl(x if isbits(x) else None))); meta.append(("i2b", n, k))
             ctx.count(); ni2b += 1
             oracle_i2b(ctx, n, k)
+    # powers of two and their neighbours up to 2^99 (all-ones / one-hot patterns: where a float logarithm rounds)
+    edge = []
+    for e in range(1, 100):
+        for n in ((1 << e) - 1, 1 << e, (1 << e) + 1):
+            edge.append((n, n.bit_length()))
+            edge.append((n, n.bit_length() + 1))
+    for n, k in edge:
+        x, _e = call(int2bin, n, k)
+        lits.append("KI2B %s %s %s" % (C.z_lit(n), C.z_lit(k), optbl(x if isbits(x) else None))); meta.append(("i2b", n, k))
+        ctx.count(); ni2b += 1
+        oracle_i2b(ctx, n, k)
+    for e in range(1, 100):
+        for b in ([True] * e, [True] + [False] * (e - 1), [False] + [True] * (e - 1)):
+            oracle_bits(ctx, list(b))
     for _ in range(ctx.scale(300, 5000)):
         n = rng.randrange(0, 1 << rng.randrange(1, 90))
         k = rng.choice([n.bit_length(), n.bit_length() + rng.randrange(0, 8), rng.randrange(0, 100)])
